@@ -15,8 +15,24 @@ WORKERS = int(os.environ.get('VERIF_WORKERS') or min(16, os.cpu_count() or 1))
 class TaskError(Exception):
     pass
 
+def trim_lex_cache(limit=20000):
+    """pytableaux's construction cache is bounded in items but not in keys: every call such as ``pred(generator)`` or
+    ``sentence.substitute(..)`` that returns an already cached item adds one more key (holding a dead generator) to the index,
+    so a long-lived worker that keeps rebuilding the same few sentences grows by gigabytes. The cache is semantically invisible
+    (that is part of C14), so the harness empties it when its index has grown past `limit` keys."""
+    try:
+        from pytableaux.lang.lex import LexicalAbcMeta
+        c = LexicalAbcMeta.__call__._cache
+    except Exception:
+        return
+    if len(c.idx) > limit:
+        c.queue.clear()
+        c.idx.clear()
+        c.rev.clear()
+
 def _call(payload):
     func, task = payload
+    trim_lex_cache(0)
     try:
         return ('ok', func(task))
     except BaseException:
